@@ -4,6 +4,7 @@ import SJ.Model.Walk
 import SJ.Model.WF
 import SJ.Model.Serialize
 import SJ.Model.Stage1Bits
+import SJ.Model.Pipeline
 import SJ.Spec.Json
 import Std.Data.HashMap
 /-
@@ -352,6 +353,13 @@ def step (st : Store) (line : String) : Store × String :=
     | none => (st, "bad-ref")
     | some pj => ({ st with pjs := st.pjs.insert pn { pj with msg := pj.msg.map (fun _ => 0xff) } }, "ok")
   | ["reset"] => ({}, "ok")
+  | ["sched", slots, trace] =>
+    match slots.toNat? with
+    | some sl =>
+      (st, match Pipeline.replayAR sl trace.toList with
+        | .ok (k, n) => s!"accepted acquired={k} released={n}"
+        | .error k => s!"rejected@{k}")
+    | none => (st, "bad-op")
   | ["block", fam, h, po, pq, er, pp] =>
     match unhex h, po.toNat?, pq.toNat?, er.toNat?, pp.toNat? with
     | some b, some po, some pq, some er, some pp =>
